@@ -51,6 +51,10 @@ def scenarios(tier):
                               spec=None, pa=True, action=action, nad=nad))
             S.append(dict(inl="paired", outl=False, pf=None, keys=[], final=None, sides="both", redirect=False, demux="name",
                           spec=None, pa=True, action=action, nad=nad))
+    # several cores: every schedule with <= 1 deviation must keep the paired files of the one-core run (deeper: C06)
+    for outl, demux in ((False, None), (True, None), (False, "name")):
+        S.append(dict(inl="paired", outl=outl, pf=None, keys=["m"], final="untrimmed_output", sides="both", redirect=True, demux=demux,
+                      spec=None, pa=False, mc=True))
     return S
 
 
@@ -110,6 +114,9 @@ def run_shard(d):
     for i in d["idx"]:
         sc = S[i]
         o, outs = opts_of(sc)
+        if sc.get("mc"):
+            _multicore(sc, o, outs, r1[:40:5], r2[:40:5], wd, res)
+            continue
         out = routing.run_scenario(o, outs, sc["inl"], r1, r2, wd, want_json=False)
         res["runs"] += 1
         res["evals"] += len(r1)
@@ -121,6 +128,28 @@ def run_shard(d):
             res["samples"].append(dict(scenario=sc, destinations=out["stats"]["categories"], example_pair=[list(r1[17]), list(r2[17])]))
     clih.rmtree(wd)
     return res
+
+
+def _multicore(sc, o, outs, r1, r2, wd, res):
+    import os
+
+    from .. import mcharness
+
+    ind = os.path.join(wd, "mc-in")
+    os.makedirs(ind, exist_ok=True)
+    p1, p2 = os.path.join(ind, "in.1.fq"), os.path.join(ind, "in.2.fq")
+    clih.write_text(p1, clih.fastq_text(r1))
+    clih.write_text(p2, clih.fastq_text(r2))
+
+    def argv(dd, cores):
+        return ["--buffer-size", "260"] + routing.build_argv(o, outs, "paired", dd, [p1, p2], cores=cores)
+
+    n, fails = mcharness.explore_vs_serial(argv, wd, bound=1, workers=2)
+    res["runs"] += n
+    res["evals"] += n * len(r1)
+    res["mc_executions"] = res.get("mc_executions", 0) + n
+    for sched, fail in fails:
+        res["viol"].append(("multicore:sync", "with 2 cores: " + fail, dict(scenario=sc, schedule=list(sched))))
 
 
 def run(tier):
